@@ -133,3 +133,72 @@ Definition mon_roundtrip (rel : bool) (p : plain_hdr) (x : proto_hdr) (payload :
               bytes_eqb (ob_payload ob) payload
   | None => false
   end.
+
+(** * Building the observation from two session-table snapshots *)
+
+Definition rx_eqb (a b : Dedup.rx) : bool :=
+  Bool.eqb (synced a) (synced b) && (max_ctr a =? max_ctr b) && (bitmap a =? bitmap b).
+
+Definition role_code (r : role) : N :=
+  match r with InitOwned => 0 | InitDropped => 1 | RespPending => 2 | RespOwned => 3 | RespDropped => 4 end.
+
+(** what a snapshot shows of an exchange slot: id, role/state, the counter
+    awaiting acknowledgement, the pending acknowledgement *)
+Definition exch_obs_eqb (a b : exch) : bool :=
+  (e_id a =? e_id b) && (role_code (e_role a) =? role_code (e_role b)) &&
+  opt_eqb (option_map r_ctr (rm_retr (e_mrp a))) (option_map r_ctr (rm_retr (e_mrp b))) &&
+  match rm_ack (e_mrp a), rm_ack (e_mrp b) with
+  | Some x, Some y => (a_ctr x =? a_ctr y) && Bool.eqb (a_acked x) (a_acked y)
+  | None, None => true
+  | _, _ => false
+  end.
+
+Definition slot_obs_eqb (a b : option exch) : bool :=
+  match a, b with
+  | Some x, Some y => exch_obs_eqb x y
+  | None, None => true
+  | _, _ => false
+  end.
+
+Fixpoint slots_obs_eqb (a b : list (option exch)) : bool :=
+  match a, b with
+  | [], [] => true
+  | x :: a', y :: b' => slot_obs_eqb x y && slots_obs_eqb a' b'
+  | _, _ => false
+  end.
+
+Definition mode_eqb (a b : smode) : bool :=
+  match a, b with
+  | MPlain, MPlain => true
+  | MPase f, MPase g => f =? g
+  | MCase f, MCase g => f =? g
+  | MGroup f i, MGroup g j => (f =? g) && (i =? j)
+  | _, _ => false
+  end.
+
+(** window and exchange slots: what [post_recv] may move *)
+Definition dyn_eqb (a b : psess) : bool :=
+  rx_eqb (ps_win a) (ps_win b) && slots_obs_eqb (ps_exchs a) (ps_exchs b).
+
+(** everything else: keys, identities, addresses, counters, mode, flags *)
+Definition ident_eqb (a b : psess) : bool :=
+  addr_eqb (ps_addr a) (ps_addr b) && (ps_local_node a =? ps_local_node b) &&
+  opt_eqb (ps_peer_node a) (ps_peer_node b) && (ps_dec_key a =? ps_dec_key b) &&
+  (ps_enc_key a =? ps_enc_key b) && (ps_local_sid a =? ps_local_sid b) &&
+  (ps_peer_sid a =? ps_peer_sid b) && (ps_msg_ctr a =? ps_msg_ctr b) &&
+  mode_eqb (ps_mode a) (ps_mode b) && Bool.eqb (ps_expired a) (ps_expired b) &&
+  Bool.eqb (ps_reserved a) (ps_reserved b).
+
+Fixpoint observe (before after : list psess) (i : nat) : list nat * bool :=
+  match before, after with
+  | [], _ => ([], false)
+  | _ :: _, [] => ([], true)
+  | b :: bt, a :: at' =>
+      let '(ch, idc) := observe bt at' (S i) in
+      ((if dyn_eqb b a then ch else i :: ch), idc || negb (ident_eqb b a))
+  end.
+
+Definition mk_observation (ok : option bool) (p : plain_hdr) (x : proto_hdr) (payload : list N)
+    (before after : list psess) : observation :=
+  let '(ch, idc) := observe before after 0 in
+  mkObs ok p x payload ch idc (length after - length before).
